@@ -222,3 +222,84 @@ Proof.
   rewrite torus_nverts_eq by lia. rewrite torus_nfaces in * by lia.
   change (zlen (@nil (Z * Z))) with 0 in HE. destruct t; nia.
 Qed.
+
+(* ------------------------------------------------------------------ vertex umbrellas *)
+Require Import MV.C14.ProofsFan.
+
+Lemma torus_links M m t v n p :
+  In (n, p) (links (torus_faces M m t) v) <->
+  exists i j, 0 <= i < M /\ 0 <= j < m /\
+    let i' := (i + 1) mod M in let j' := (j + 1) mod m in
+    let a := tv m i j in let b := tv m i j' in let c := tv m i' j' in let d := tv m i' j in
+    if t then ((v = a /\ n = b /\ p = d) \/ (v = b /\ n = d /\ p = a) \/ (v = d /\ n = a /\ p = b))
+              \/ ((v = b /\ n = c /\ p = d) \/ (v = c /\ n = d /\ p = b) \/ (v = d /\ n = b /\ p = c))
+    else (v = a /\ n = b /\ p = d) \/ (v = b /\ n = c /\ p = a) \/ (v = c /\ n = d /\ p = b) \/ (v = d /\ n = a /\ p = c).
+Proof.
+  rewrite links_In. split.
+  - intros [f [Hf H]]. apply torus_face_In in Hf as [i [j [Hi [Hj Hf]]]]. exists i, j. split; auto. split; auto.
+    cbv zeta. unfold tcell in Hf. cbv zeta in Hf. unfold tv. destruct t; cbn [In] in Hf; split_or Hf; subst f.
+    + left. apply tri_corner. exact H.
+    + right. apply tri_corner. exact H.
+    + apply quad_corner. exact H.
+  - intros [i [j [Hi [Hj H]]]]. cbv zeta in H. unfold tv in H. destruct t.
+    + destruct H as [H|H]; eexists; (split; [apply torus_face_In; exists i, j; split; [exact Hi|]; split; [exact Hj|];
+        unfold tcell; cbv zeta; cbn [In] | apply tri_corner; exact H]); [left | right; left]; reflexivity.
+    + eexists. split; [apply torus_face_In; exists i, j; split; [exact Hi|]; split; [exact Hj|];
+        unfold tcell; cbv zeta; left; reflexivity | apply quad_corner; exact H].
+Qed.
+
+Definition torus_ring (M m : Z) (t : bool) (i0 j0 : Z) : list (Z * Z) :=
+  let ni := (i0 + 1) mod M in let nj := (j0 + 1) mod m in let pi := pr M i0 in let pj := pr m j0 in
+  [(tv m i0 nj, tv m ni j0)]
+  ++ (if t then [(tv m ni j0, tv m ni pj); (tv m ni pj, tv m i0 pj)] else [(tv m ni j0, tv m i0 pj)])
+  ++ [(tv m i0 pj, tv m pi j0)]
+  ++ (if t then [(tv m pi j0, tv m pi nj); (tv m pi nj, tv m i0 nj)] else [(tv m pi j0, tv m i0 nj)]).
+
+Lemma pr_cases n i : 0 <= i < n -> (pr n i = i - 1 /\ 0 < i) \/ (pr n i = n - 1 /\ i = 0).
+Proof. unfold pr. destruct (i =? 0) eqn:E; lia. Qed.
+
+Lemma torus_vertex_manifold M m t : 3 <= M -> 3 <= m -> vertex_manifold (torus_nverts M m t) (torus_faces M m t).
+Proof.
+  intros HM Hm. rewrite torus_nverts_eq by lia. intros v Hv.
+  set (i0 := v / m). set (j0 := v mod m).
+  assert (Hij : v = tv m i0 j0 /\ 0 <= j0 < m /\ 0 <= i0 < M).
+  { subst i0 j0. pose proof (Z.div_mod v m ltac:(lia)). pose proof (Z.mod_pos_bound v m ltac:(lia)). unfold tv.
+    split; [lia|]. split; [lia|]. split; [apply Z.div_pos; lia | apply Z.div_lt_upper_bound; lia]. }
+  destruct Hij as [Ev [Hj0 Hi0]]. clearbody i0 j0. subst v.
+  apply (one_fan_intro _ _ (torus_ring M m t i0 j0)); [apply torus_oriented_manifold; auto | | |].
+  - unfold torus_ring, tv. cbv zeta.
+    destruct (mod_succ_cases i0 M Hi0) as [[Ei Li]|[Ei Li]]; rewrite Ei;
+    destruct (mod_succ_cases j0 m Hj0) as [[Ej Lj]|[Ej Lj]]; rewrite Ej;
+    destruct (pr_cases M i0 Hi0) as [[Pi Qi]|[Pi Qi]]; rewrite Pi;
+    destruct (pr_cases m j0 Hj0) as [[Pj Qj]|[Pj Qj]]; rewrite Pj;
+    destruct t; cbn [app]; repeat constructor; cbn [In]; intros Hin; split_or Hin; pinj Hin;
+      first [lia | nia | rm_solve].
+  - intros [n p]. rewrite torus_links. unfold torus_ring. cbv zeta. split.
+    + (* each corner of the ring is a corner of one of the four cells around the vertex *)
+      intros H. rewrite !in_app_iff in H. destruct H as [H|[H|[H|H]]].
+      * destruct H as [H|[]]. pinj H. subst. exists i0, j0. split; [lia|]. split; [lia|]. cbv zeta.
+        destruct t; [left; left; auto | left; auto].
+      * exists i0, (pr m j0). split; [lia|]. split; [apply pr_range; lia|]. cbv zeta. rewrite succ_pr by lia.
+        destruct t; cbn [In] in H; split_or H; pinj H; subst.
+        -- right. left. auto.
+        -- left. right. left. auto.
+        -- right. left. auto.
+      * destruct H as [H|[]]. pinj H. subst. exists (pr M i0), (pr m j0). split; [apply pr_range; lia|]. split; [apply pr_range; lia|].
+        cbv zeta. rewrite !succ_pr by lia. destruct t; [right; right; left; auto | right; right; left; auto].
+      * exists (pr M i0), j0. split; [apply pr_range; lia|]. split; [lia|]. cbv zeta. rewrite succ_pr by lia.
+        destruct t; cbn [In] in H; split_or H; pinj H; subst.
+        -- left. right. right. auto.
+        -- right. right. right. auto.
+        -- right. right. right. auto.
+    + (* conversely every corner at the vertex comes from one of those four cells *)
+      intros [i [j [Hi [Hj H]]]]. cbv zeta in H. unfold tv in *.
+      destruct (mod_succ_cases i M Hi) as [[Ei Li]|[Ei Li]]; rewrite Ei in H;
+      destruct (mod_succ_cases j m Hj) as [[Ej Lj]|[Ej Lj]]; rewrite Ej in H;
+      destruct (mod_succ_cases i0 M Hi0) as [[Ei0 Li0]|[Ei0 Li0]]; rewrite Ei0;
+      destruct (mod_succ_cases j0 m Hj0) as [[Ej0 Lj0]|[Ej0 Lj0]]; rewrite Ej0;
+      destruct (pr_cases M i0 Hi0) as [[Pi Qi]|[Pi Qi]]; rewrite Pi;
+      destruct (pr_cases m j0 Hj0) as [[Pj Qj]|[Pj Qj]]; rewrite Pj;
+      destruct t; split_or H; destruct H as [E [-> ->]]; apply rowmajor_inj in E; try lia; destruct E as [E1 E2];
+      try lia; subst; cbn [app In]; first [lia | pick_by ltac:(f_equal; lia)].
+  - unfold torus_ring. cbv zeta. destruct t; cbn [app chained fst snd]; repeat split; reflexivity.
+Qed.
